@@ -99,6 +99,8 @@ HOT_NAMES = [
     "parent", "env", "hint", "path", "obj", "func", "args", "keywords", "template", "globals",
     "scope", "locals", "loader", "filters", "tags", "striptags", "unescape",
 ]
+# the dict-subclass drop keeps a canary in its underlying storage under every name tried
+O.STORAGE_NAMES[:] = sorted(set(HOT_NAMES) | {n for n in dir(dict) if not n.startswith("__")})
 SECOND_NAMES = ["__mro__", "__globals__", "__name__", "__dict__", "__subclasses__", "__bases__",
                 "__class__", "__init__", "__self__", "__func__", "__code__", "secret", "__doc__"]
 CORE_NAMES = ["secret", "__class__", "__dict__", "__init__", "prop", "delete", "keys", "format"]
@@ -559,7 +561,9 @@ class Runner:
                 what = f"{b['level']} attribute '{b['name']}' of a {b['shape']} object read by {b['caller']}: {b['why']}"
             elif b["kind"] == "called":
                 key = b["key"]
-                what = f"engine code ({b['caller']}) CALLED a callable item ({b['callable']}) that the data only exposed as a value"
+                what = (f"engine code ({b['caller']}) called the non-protocol Python method {b['callable']}() of a context object"
+                        if b["callable"].startswith("dict.") else
+                        f"engine code ({b['caller']}) CALLED a callable item ({b['callable']}) that the data only exposed as a value")
             elif b["kind"] == "canary":
                 key = f"canary:{b['holder']}->{b['sink'].split(':')[0]}@{_site_family(site['id'])}"
                 what = f"canary {b['token']} (held only in a Python {b['holder']}) reached {b['sink']}"
